@@ -8,7 +8,7 @@
    them; here the machine runs the history and must produce exactly that view.
    This is the composition the end-to-end theorems (the `_history` statements
    of Props/C01, C03 .. C09) are about. *)
-From Tab Require Export Run.Glue Model.Table Spec.TableHist Model.Csv.
+From Tab Require Export Run.Glue Model.Table Spec.TableHist Model.Csv Model.JsonString.
 
 (* oracles of one case *)
 Record pipe_oracle := mkPO {
@@ -70,15 +70,17 @@ Definition view_eqb (a b : view) : bool :=
 Definition pipe_case := (pipe_oracle * pipe_hist * view * res (list N))%type.
 
 (* corr: the history is one the theorems quantify over, the machine's view is
-   the real table's, and the CSV model on the MACHINE's view gives the real
-   bytes *)
+   the real table's, the CSV model on the MACHINE's view gives the real bytes,
+   and json.Marshal of every string is what the encoder model computes *)
 Definition pipe_corr (c : pipe_case) : bool :=
   let '(o, h, obs, csv) := c in
   let W := lookup_w (po_w o) in
   let e := env_of (po_env o) in
   twf_histb (h W e)
   && view_eqb (pipe_view o h) obs
-  && res_eqb bytes_eqb (csv_render (pipe_view o h)) csv.
+  && res_eqb bytes_eqb (csv_render (pipe_view o h)) csv
+  (* encoding/json on every string item is the modelled encoder (Model/JsonString.v) *)
+  && forallb (fun p => bytes_eqb (go_json_string (fst p)) (snd p)) (po_strj o).
 
 (* for replays: what the machine computes *)
 Definition pipe_model (c : pipe_case) := let '(o, h, _, _) := c in (pipe_view o h, csv_render (pipe_view o h)).
